@@ -118,6 +118,14 @@ def build(d):
     kw = dict(poly_trend=d["poly_trend"], n_offsets=d["n_offsets"])
     if d["t_ref"] is not None:
         kw["t_ref"] = Time(d["t_ref"], format="mjd", scale=d.get("t_ref_scale", "tcb"))
+    if d.get("via_table"):
+        # the table route: an astropy QTable whose dimensionless columns are plain arrays (Column objects with unit None)
+        from astropy.table import QTable
+        tbl = QTable()
+        for c in d["cols"]:
+            arr = np.array(c["vals"], dtype=c.get("dtype", "f8"))
+            tbl[c["name"]] = arr if c["unit"] == "" else arr * u.Unit(c["unit"])
+        return JokerSamples(tbl, **kw)
     s = JokerSamples(**kw)
     for c in d["cols"]:
         s[c["name"]] = np.array(c["vals"], dtype=c.get("dtype", "f8")) * u.Unit(c["unit"])
@@ -469,6 +477,9 @@ def gen_index(rng, n):
 
 def index_case(ctx, g, rng):
     d = gen_table(rng)
+    if g["index"] % 3 == 0:
+        d["via_table"] = True
+        ctx.count("index:built from a QTable with unit-less dimensionless columns")
     n = d["n"]
     ix = gen_index(rng, n)
     s = build(d)
@@ -819,6 +830,7 @@ def post(ctx):
     for k in ("int", "npint", "slice", "mask", "idx", "list", "copy"):
         ctx.require(f"index kind {k}", c[f"index:{k}"], 10)
     ctx.require("refused index expressions", c["index:refused"], 8)
+    ctx.require("tables built from a QTable with unit-less columns", c["index:built from a QTable with unit-less dimensionless columns"], 10)
     ctx.require("negative slice step", c["index:negative_step"], 10)
     ctx.require("empty results", c["index:empty_result"], 5)
     ctx.require("median with duplicated periods", c["reduce:median_duplicated"], 20)
